@@ -35,6 +35,10 @@ DESC = {
               "two threads sharing the connection; one call becomes outstanding between the other's check and its write lock (unwrap panic, poisoned lock)"),
     "C07-2": ("C07", "recv(): the typed decode of the parameters now happens before the reader/writer are handed back",
               "a final reply without error whose parameters do not decode, followed by another call on the same connection (ConnectionBusy forever)"),
+    "C12-1": ("C12", "try_from's error closure cuts the line out with the byte offset and reports `offset - start + 1` (a byte distance) as the column",
+              "a non-ASCII character (e.g. U+3000 / U+00A0 whitespace) in front of the error position on the same line: the column runs past the line"),
+    "C12-2": ("C12", "`value.split('\\n').nth(line-1)` replaced by `value.lines().nth(line-1)` (drops the empty piece after a trailing newline)",
+              "a truncated definition whose last byte is a line break, error at end of input: nth() is None and the unwrap panics"),
     "C14-1": ("C14", "worker loop: `let message = ...recv()` folded into the match scrutinee, so the receiver lock is held while the job runs",
               "at least two connections open at the same time (only one is ever in service; pool still grows, counter stays correct)"),
     "C14-2": ("C14", "execute() grows on `busy > workers.len() && busy < max_workers`",
